@@ -116,7 +116,17 @@ def viz_renamed_boundary(case, msg, observed=None):
     return bool(probs) and all(p.get("code") in (3, 4, 14, 5, 15, 7) for p in probs)
 
 
-MATCHERS = {f.__name__: f for f in (waiter_with_edge_default, ambiguous_cycle_entry, empty_map_silent, viz_renamed_boundary, interrupt_handler_wrapped, interrupt_with_edge_default, bound_output_name)}
+def stop_iteration_async(case, msg, observed=None):
+    """Under AsyncRunner a (synchronous) node function raising StopIteration surfaces as RuntimeError('coroutine raised
+    StopIteration') - PEP 479: a StopIteration cannot leave a coroutine - while SyncRunner surfaces the object itself."""
+    run = case.get("run") if isinstance(case, dict) else None
+    if not run or not run.get("stop_iteration") or run.get("runner") != "async":
+        return False
+    rep = (observed or {}).get("error_repr") if isinstance(observed, dict) else None
+    return "coroutine raised StopIteration" in (msg or "") or "coroutine raised StopIteration" in (rep or "")
+
+
+MATCHERS = {f.__name__: f for f in (stop_iteration_async, waiter_with_edge_default, ambiguous_cycle_entry, empty_map_silent, viz_renamed_boundary, interrupt_handler_wrapped, interrupt_with_edge_default, bound_output_name)}
 
 
 def classify(ctx, case, msg, observed=None):
